@@ -13,7 +13,10 @@ package dotgit
 // clause of validReferenceName and propagated by Join/Split/String).
 
 // validReferenceName returns nil only for names IsSafe accepts and that carry
-// no control byte.
+// no control byte, and only after the whole name was split at '/' and '\'
+// and every component -- whatever it looks like -- went through both dot
+// disguise checks (HFS+ ignorable code points, NTFS trailing dots / spaces /
+// stream suffixes) with "." as the needle.
 //gvc:func validReferenceName
 //gvc:  props C14
 //gvc:  theory int
@@ -22,6 +25,11 @@ package dotgit
 //gvc:  ensures gate: result == nil ==> spec_issafe(strid(name))
 //gvc:  ensures noctl: result == nil ==> forall(k, 0, len(name), name[k] >= 0x20 && name[k] != 0x7f)
 //gvc:  loop 1 invariant scanned: forall(k, 0, i, s[k] >= 0x20 && s[k] != 0x7f)
+//gvc:  ensures split: result == nil ==> calls("FieldsFunc") == 1
+//gvc:  loop 2 step each: calls("IsHFSDot") == head(calls("IsHFSDot")) + 1 && calls("IsNTFSDot") == head(calls("IsNTFSDot")) + 1
+//gvc:  sink IsHFSDot requires whole: same_string(arg0, part) && bytes_eq(arg1, ".")
+//gvc:  sink IsNTFSDot requires whole: same_string(arg0, part) && bytes_eq(arg1, ".") && len(arg2) == 0
+//gvc:  sink FieldsFunc requires whole: same_string(arg0, s)
 //gvc:  grants validated: result == nil ==> spec_refsafe(strid(name))
 //gvc:end
 
